@@ -23,8 +23,8 @@ BINS = [b for b in ["h_inbound"] if os.path.exists(os.path.join(core.HARNESS, "s
 LEVEL = "proof"
 MANIFEST = {
     "category": "proof",
-    "text": "Coq theorems: bit-packing of the payment-secret info round-trips and errs exactly out of range; verify accepts everything create/create_from_hash produce (abstract MAC/keystream with the laws as visible hypotheses, and the executable HMAC-SHA256/ChaCha20/SHA-256 instance) and accepts only MAC-authenticated, sufficiently paid, unexpired secrets; PaymentClaimable only for complete sets of checked parts; rejected parts are failed back; for every sequence of ticks, blocks below the advertised deadline and further arrivals claim_funds claims exactly the advertised parts and amount; all-or-nothing; a claim never drops parts. The models are tied to the code on every run: byte-exact differential execution of create/verify (incl. mutation streams) and op-by-op trace comparison of MPP accumulation / timeout / claim on real ChannelManagers.",
-    "note": "Proved on hand models; unforgeability is the HMAC assumption (visible hypothesis structure: verify_sound reduces acceptance to a MAC equality); ChannelManager wiring validated by trace correspondence, not proved. payment_metadata, keysend without secret, phantom, BOLT12 contexts, trampoline receive, skimmed fees not modelled.",
+    "text": "Coq theorems: bit-packing of the payment-secret info round-trips and errs exactly out of range; verify accepts everything create/create_from_hash produce (abstract MAC/keystream with the laws as visible hypotheses, and the executable HMAC-SHA256/ChaCha20/SHA-256 instance) and accepts only MAC-authenticated, sufficiently paid, unexpired secrets; PaymentClaimable only for complete sets of checked parts; rejected parts are failed back; for every sequence of ticks, blocks below the advertised deadline and further arrivals claim_funds claims exactly the advertised parts and amount; all-or-nothing; a claim never drops parts; a set for which PaymentClaimable was emitted is never failed by the timer, whatever the previous hops skimmed; PaymentClaimed reports exactly the announced amount = the sum received on ALL announced parts, and once an announced part is gone nothing is claimed. The five deciding comparisons (underpaid, already complete, complete on arrival, complete at a tick, claim amount mismatch) are regenerated from the Rust source by rs2v on every run and unfolded in the proofs. The models are tied to the code on every run: byte-exact differential execution of create/verify (incl. mutation streams) and op-by-op trace comparison of MPP accumulation / timeout / claim on real ChannelManagers, with parts whose received amount differs from the sender-intended one (skimming LSP-like forwarders, accept_underpaying_htlcs on/off), overshooting sets, per-part expiries, ticks and blocks before and after PaymentClaimable.",
+    "note": "Proved on hand models; unforgeability is the HMAC assumption (visible hypothesis structure: verify_sound reduces acceptance to a MAC equality); ChannelManager wiring validated by trace correspondence, not proved. The accumulation loops around the regenerated comparisons are tied by textual source anchors only. payment_metadata, keysend without secret, phantom, BOLT12 contexts, trampoline receive, a previous hop lying about its skimmed fee not modelled.",
     "technique": "machine-checked proof in Coq (Z arithmetic for the packing, abstract-primitive section for verify, invariant over all op sequences for the claim window) + differential correspondence",
 }
 FEATURES = ["std", "_test_utils", "_verif_hooks"]
@@ -45,11 +45,39 @@ def _cleanup_eval(ctx):
         pass
 
 
+# Statements of the source that the model transliterates by hand and rs2v cannot translate (loops over &mut parts):
+# each regex has to match exactly once, otherwise the model is no longer known to follow the code.
+SOURCE_ANCHORS = [
+    ("lightning/src/ln/channelmanager.rs", r"for htlc in htlcs \{\s*total_intended_recvd_value \+= htlc\.sender_intended_value;\s*htlc\.timer_ticks \+= 1;",
+     "check_mpp_timeout sums sender_intended_value of every part"),
+    ("lightning/src/ln/channelmanager.rs", r"let mut total_intended_recvd_value = new_htlc\.mpp_part\(\)\.sender_intended_value;\s*for htlc in htlc_set\.iter\(\) \{\s*total_intended_recvd_value \+= htlc\.mpp_part\(\)\.sender_intended_value;",
+     "check_incoming_mpp_part sums sender_intended_value of the new and the held parts"),
+    ("lightning/src/ln/channelmanager.rs", r"let amount_msat = htlc_set\.iter\(\)\.map\(\|htlc\| htlc\.mpp_part\(\)\.value\)\.sum\(\);\s*htlc_set\s*\.iter_mut\(\)\s*\.for_each\(\|htlc\| htlc\.mpp_part_mut\(\)\.total_value_received = Some\(amount_msat\)\);",
+     "on completion every part records the sum of the values received"),
+    ("lightning/src/ln/channelmanager.rs", r"expected_amt_msat = htlc\.mpp_part\.total_value_received;\s*claimable_amt_msat \+= htlc\.mpp_part\.value;\s*\}",
+     "claim_payment_internal compares the sum of the values with the recorded total"),
+    ("lightning/src/ln/channelmanager.rs", r"(?s)if claimable_amt_msat != expected_amt_msat\.unwrap\(\) \{.{0,700}?valid_mpp = false;\s*\}\s*if valid_mpp \{",
+     "a mismatch invalidates the claim (every remaining part is failed back)"),
+]
+
+
 def generate(ctx):
+    from vlib import gen
     text, meta = consts_lite.extract(core.REPO, CONST_ITEMS, FEATURES)
     core.write_if_changed(os.path.join(core.COQ, "Gen", "ConstsC04.v"), text)
-    ctx.gen_meta = meta
-    return meta
+    metas, errors = gen.regen(ctx, ["InboundChecks"])
+    ctx.gen_meta = list(meta) + [dict(m, module=k) for k, ms in metas.items() for m in ms]
+    if errors:
+        raise RuntimeError("; ".join("%s: %s" % kv for kv in sorted(errors.items())))
+    anchors = []
+    for rel, rx, what in SOURCE_ANCHORS:
+        src = open(os.path.join(core.REPO, rel)).read()
+        n = len(re.findall(rx, src))
+        anchors.append({"file": rel, "what": what, "matches": n})
+        if n != 1:
+            raise RuntimeError("source anchor '%s' matches %d times in %s (expected exactly 1): the hand model of the receive path is no longer known to follow the code" % (what, n, rel))
+    ctx.gen_meta += [{"name": "anchor: " + a["what"], "kind": "source-anchor", "file": a["file"]} for a in anchors]
+    return ctx.gen_meta
 
 
 def const_from_gen(name, default):
@@ -271,54 +299,120 @@ def secret_tier(ctx, model_ok):
 
 
 # ===================================================================== part B: MPP accumulation / claim on real nodes
+MODES = ["claim", "short", "over", "timeout", "failback", "blocks", "badsecret", "undertotal", "late",
+         "skim", "skim_ticks", "skim_refused", "overshoot_lose_keep", "overshoot_lose_drop", "overshoot_ticks", "extra_part", "reannounce", "free"]
+MPP_TICKS = 3
+
+
+def split_parts(rng, total, target, nparts, subset_reaches):
+    """sender-intended amounts: every proper prefix stays below `total` (a part arriving at a complete set is
+    refused), all of them sum to `target` >= total. subset_reaches: True / False / None - whether the set without
+    its FIRST part still reaches `total` (if the numbers allow it)."""
+    if nparts == 1:
+        return [target]
+    if subset_reaches is True and target - total >= 1000:
+        first = min(target - total, total // 4) // 1000 * 1000 or 1000
+    elif subset_reaches is False:
+        first = max(target - total + 1000, total // 3) // 1000 * 1000
+    else:
+        first = (total // (nparts + 1)) // 1000 * 1000 + rng.choice([0, 1000])
+    first = max(1000, min(first, total - 1000))
+    amts = [first]
+    left_before_last = total - 1000 - first          # what the middle parts may add at most
+    for i in range(nparts - 2):
+        a = max(1000, min(left_before_last, (total // (nparts + 1)) // 1000 * 1000 + rng.choice([0, 1000, 2000])))
+        if left_before_last < 1000:
+            break
+        amts.append(a)
+        left_before_last -= a
+    amts.append(target - sum(amts))
+    return amts
+
+
 def gen_script(rng, kind):
-    """-> (script lines, structured ops). One payment, hash interned as 1 in the model."""
+    """-> (script lines, info). One payment, hash interned as 1 in the model. Parts differ in the amount the
+    sender intended (onion) and the amount received (skimmed / overpaid by the LSP-like forwarder), in their
+    expiries, and the sets overshoot the committed total; ticks and blocks before and after PaymentClaimable."""
+    hfb = const_from_gen("HTLC_FAIL_BACK_BUFFER", 39)
     total = rng.choice([3_000_000, 1_000_000, 5_000_000])
     mn = rng.choice([None, total, total, total // 2])
-    cd = rng.choice([None, None, 60, 400])
+    cd = rng.choice([None, None, None, 60])
+    mode = kind if kind != "random" else rng.choice(MODES + ["free"] * 4)
+    underpay = 1 if mode in ("skim", "skim_ticks") else (0 if mode == "skim_refused" else (1 if rng.chance(1, 2) else 0))
     lines = ["invoice %d %d" % (-1 if mn is None else mn, -1 if cd is None else cd)]
-    mode = kind if kind != "random" else rng.choice(["claim", "claim", "short", "over", "timeout", "failback", "blocks", "badsecret", "undertotal", "late"])
-    nparts = 2 if mode == "late" else rng.choice([1, 2, 2, 3, 4])
-    amts = []
-    left = total
-    for i in range(nparts):
-        a = left if i == nparts - 1 else max(1000, (left // (nparts - i)) // 1000 * 1000 + rng.choice([0, 1000, -1000]))
-        a = max(1000, min(a, left)) if left > 1000 else 1000
-        amts.append(a)
-        left = max(0, left - a)
+    target = total
+    if mode in ("overshoot_lose_keep", "overshoot_lose_drop", "overshoot_ticks", "free", "skim", "skim_ticks"):
+        target = rng.choice([total, total + 1, total * 3 // 2, 2 * total - 1])
+    if mode == "reannounce":
+        target = rng.choice([total, total + 1])
+    if mode == "overshoot_lose_keep":
+        target = rng.choice([total * 3 // 2, 2 * total - 1])
+    nparts = 2 if mode == "late" else rng.choice([1, 2, 2, 3, 3, 4])
+    if mode in ("overshoot_lose_keep", "overshoot_lose_drop", "reannounce"):
+        nparts = rng.choice([2, 3, 3, 4])
+    subset = True if mode == "overshoot_lose_keep" else (False if mode in ("overshoot_lose_drop", "late", "reannounce") else rng.choice([True, False, None]))
+    amts = split_parts(rng, total, target, nparts, subset)
     if mode == "short":
-        amts[-1] = max(1000, amts[-1] - 2000)
+        amts[-1] = max(1000, amts[-1] - 2000 - (target - total))
     if mode == "over":
         amts[-1] += 5000
-    extras = [rng.choice([0, 0, 5, 20]) for _ in amts]
-    if mode == "late":
-        extras = [0, 20]
+    extras = [rng.choice([0, 0, 5, 20, 40]) for _ in amts]
+    if mode in ("late", "overshoot_lose_keep", "overshoot_lose_drop", "reannounce"):
+        extras = [0] + [rng.choice([20, 30, 40]) for _ in amts[1:]]
+    skims = []
+    for i, a in enumerate(amts):
+        if mode in ("skim", "skim_ticks", "skim_refused"):
+            sk = rng.choice([1, 1000, 20000, min(a - 1, 400000)]) if (i == 0 or rng.chance(2, 3)) else rng.choice([None, 0])
+        elif mode in ("free", "overshoot_ticks", "overshoot_lose_keep", "overshoot_lose_drop", "reannounce"):
+            sk = rng.choice([None, None, 0, -500, 1000, 30000]) if underpay else rng.choice([None, None, 0, -500, None, 1000])
+        else:
+            sk = None
+        skims.append(sk)
+    before = lambda: (["tick"] * rng.choice([0, 0, 1, 2]) if mode in ("free", "timeout", "skim_ticks", "overshoot_ticks") else [])
     for i, a in enumerate(amts):
         flipped = 1 if (mode == "badsecret" and i == len(amts) - 1) else 0
         tot = total if not (mode == "undertotal") else (mn or total) - 1000
-        lines.append("part %d %d %d %d %d" % (rng.choice([1, 2]), a, tot, extras[i], flipped))
-        if mode == "timeout" and i == 0 and len(amts) > 1:
-            lines.append("tick")
-        elif rng.chance(1, 6):
-            lines.append("block %d" % rng.choice([1, 2, 3]))
+        lines.append("part %d %d %d %d %d%s" % (rng.choice([1, 2]), a, tot, extras[i], flipped, "" if skims[i] is None else " %d" % skims[i]))
+        if i < len(amts) - 1:
+            if mode == "timeout" and i == 0:
+                lines.append("tick")
+            lines += before()
+            if rng.chance(1, 6):
+                lines.append("block %d" % rng.choice([1, 2, 3]))
+    # after the (possible) PaymentClaimable: 0 .. MPP_TIMEOUT_TICKS + 2 ticks, blocks up to a part's own deadline
+    nticks = rng.below(MPP_TICKS + 3) if mode not in ("claim", "late", "reannounce") else 0
+    if mode in ("skim_ticks", "overshoot_ticks"):
+        nticks = MPP_TICKS + rng.below(3)
+    lines += ["tick"] * nticks
+    if mode == "extra_part":
+        lines.append("part %d %d %d %d 0" % (rng.choice([1, 2]), 2000, total, 10))
     if mode == "blocks":
-        lines.append("block %d" % rng.choice([10, 40, 69, 70, 71]))
+        lines.append("block %d" % rng.choice([10, 25, 29, 30, 31, 32]))
         lines.append("tick")
-    if mode == "late":
-        lines += ["block 69", "block 1"]
-    if mode == "failback":
+    if mode in ("late", "overshoot_lose_keep", "overshoot_lose_drop", "reannounce"):
+        lines.append("deadline 0 %d %d" % (rng.choice([0, 0, 1]), hfb))        # the first part reaches its own deadline
+        lines += ["tick"] * (rng.below(MPP_TICKS + 2) if mode != "reannounce" else rng.below(2))
+    elif mode in ("free", "skim", "overshoot_ticks") and rng.chance(1, 2):
+        k = rng.below(len(amts))
+        lines.append("deadline %d %d %d" % (k, rng.choice([-2, -1, -1, 0, 1]), hfb))
+        lines += ["tick"] * rng.below(MPP_TICKS + 2)
+    if mode == "reannounce":
+        # a further part makes the shrunk set complete again: a second PaymentClaimable, a new amount
+        lines.append("part %d %d %d %d 0" % (rng.choice([1, 2]), amts[0] + rng.choice([0, 1000, total]), total, 45))
+        lines += ["tick"] * rng.below(2)
+    if mode == "failback" or (mode == "free" and rng.chance(1, 8)):
         lines.append("failback")
-    elif mode in ("claim", "over", "blocks", "late"):
-        # claim_funds is only meaningful after PaymentClaimable; calling it on an incomplete set is
-        # API misuse (and drops the held parts: see design/C04.md), so the scripts do not do it
+    elif mode not in ("short", "timeout", "badsecret", "undertotal", "skim_refused") or False:
+        # claim_funds is only meaningful after PaymentClaimable; calling it on a set that was never announced is
+        # API misuse (see design/C04.md), so the scripts only claim where a PaymentClaimable is expected
         lines.append("claim")
     # ... and run past every claim deadline: by then each part must have been claimed or failed back
-    lines += ["tick", "block 12", "tick", "block 6", "block 90", "tick"]
-    return lines, {"total": total, "min": mn, "cltvdelta": cd, "mode": mode}
+    lines += ["tick", "block 12", "tick", "block 6", "block 160", "tick"]
+    return lines, {"total": total, "min": mn, "cltvdelta": cd, "mode": mode, "underpay": underpay, "target": target}
 
 
-def run_mpp(ctx, lines, style):
-    p = subprocess.run([ctx.bin_path("h_inbound"), "mpp", str(style)], input="\n".join(lines) + "\n", stdout=subprocess.PIPE,
+def run_mpp(ctx, lines, style, underpay=0):
+    p = subprocess.run([ctx.bin_path("h_inbound"), "mpp", str(style), str(underpay)], input="\n".join(lines) + "\n", stdout=subprocess.PIPE,
                        stderr=subprocess.DEVNULL, universal_newlines=True, timeout=600, cwd=ctx.tmp)
     recs = []
     for l in p.stdout.split("\n"):
@@ -334,9 +428,9 @@ def pid_of(ch, hid):
     return ch * 1000 + hid
 
 
-def mpp_model_ops(lines, recs, hfb):
-    """Builds the Coq op list from the script and what the harness observed (HTLC ids, amounts,
-    expiries, heights). Returns (ops as list of lists per command, info)."""
+def mpp_model_ops(lines, recs, hfb, underpay=0):
+    """Builds the Coq op list from the script and what the harness observed (HTLC ids, amounts received,
+    skimmed fees, expiries, heights). Returns (ops as list of lists per command, start height)."""
     ops = []
     mn, cd = None, None
     h = None
@@ -350,16 +444,19 @@ def mpp_model_ops(lines, recs, hfb):
             h = r["height"]
         elif t[0] == "part":
             amt, tot, flipped = int(t[2]), int(t[3]), t[5] != "0"
-            for (ch, hid, a, cltv) in r["adds"]:
+            for (ch, hid, a, cltv, sk) in r["adds"]:
                 auth = (not flipped) and tot >= (mn or 0)
-                cur.append("Recv 1 %d %d %d %d %d {| f_secret := %d; f_total := %d; f_meta := -1; f_even := [] |} 9 %s %s"
+                cur.append("Recv 1 %d %d %d %d %d {| f_secret := %d; f_total := %d; f_meta := -1; f_even := [] |} 9 %s %s %s %s"
                            % (pid_of(ch, hid), cltv, cltv, a, amt, 8 if flipped else 7, tot, "true" if auth else "false",
-                              "None" if cd is None else "(Some %d)" % cd))
+                              "None" if cd is None else "(Some %d)" % cd, "None" if sk == 0 else "(Some %d)" % sk,
+                              "true" if underpay else "false"))
         elif t[0] == "tick":
             cur.append("Tick")
-        elif t[0] == "block":
+        elif t[0] in ("block", "deadline"):
             for hh in range(prev_h + 1, r["height"] + 1):
                 cur.append("Block %d" % hh)
+        elif t[0] in ("claim", "claimknown") and r.get("skipped"):
+            pass        # the harness did not call claim_funds: no PaymentClaimable covers the held parts (API misuse)
         elif t[0] == "claim":
             cur.append("Claim 1 false")
         elif t[0] == "claimknown":
@@ -372,13 +469,18 @@ def mpp_model_ops(lines, recs, hfb):
 
 
 def mpp_judge(lines, recs, info, hfb):
-    """C04's statement on the recipient's real events and messages."""
+    """C04's statement on the recipient's real events and messages. A part has the amount the sender intended
+    (script) and the amount received (update_add_htlc); completeness is a matter of the former, what is announced
+    and claimed a matter of the latter."""
     fails = []
-    parts = {}        # pid -> dict(amt, cltv, good, state)
-    last_claimable = None
+    parts = {}        # pid -> dict(amt = received, intended, cltv, good, state)
+    ann = None        # the last PaymentClaimable: amount, deadline, parts, intact (no announced part lost since), live
     mn = info["min"]
+    underpay = info.get("underpay", 0)
     for idx, (line, r) in enumerate(zip(lines, recs)):
         t = line.split()
+        if r.get("skipped"):
+            t = ["skipped-claim"]
 
         def bad(why):
             fails.append({"cmd_index": idx, "cmd": line, "why": why, "observed": r})
@@ -387,69 +489,118 @@ def mpp_judge(lines, recs, info, hfb):
         if t[0] == "part":
             flipped = t[5] != "0"
             tot = int(t[3])
-            good = (not flipped) and tot >= (mn or 0)
-            for (ch, hid, a, cltv) in r["adds"]:
-                parts[pid_of(ch, hid)] = {"amt": a, "cltv": cltv, "good": good, "state": "held", "total": tot, "ch": ch}
+            intended = int(t[2])
+            for (ch, hid, a, cltv, sk) in r["adds"]:
+                paid_enough = a >= intended if not underpay else a + sk >= intended
+                good = (not flipped) and tot >= (mn or 0) and paid_enough
+                parts[pid_of(ch, hid)] = {"amt": a, "intended": intended, "skim": sk, "cltv": cltv, "good": good, "state": "held", "total": tot, "ch": ch}
                 if not good and [ch, hid] not in r["fails"]:
-                    bad("a part with a wrong secret / under-committed total was not failed back at once")
+                    bad("a part with a wrong secret / under-committed total / less than the sender intended%s was not failed back at once"
+                        % (" (no accept_underpaying_htlcs)" if not underpay else " even counting the declared skimmed fee"))
+        failed_now = []
         for (ch, hid) in r["fails"]:
             p = parts.get(pid_of(ch, hid))
             if p:
                 if p["state"] == "fulfilled":
                     bad("a part was failed back after the preimage was released on it")
                 p["state"] = "failed"
+                failed_now.append(pid_of(ch, hid))
+        ful = set()
         for (ch, hid) in r["fulfills"]:
             p = parts.get(pid_of(ch, hid))
             if p:
                 if p["state"] == "failed":
                     bad("the preimage was released on a part that had been failed back")
                 p["state"] = "fulfilled"
+                ful.add(pid_of(ch, hid))
+        # ---- an announced set that is still whole: only its parts' own deadlines may take parts away
+        if ann and ann["intact"] and ann["live"] and t[0] not in ("claim", "claimknown", "failback"):
+            lost = [k for k in ann["parts"] if k in failed_now]
+            if lost:
+                if t[0] == "tick":
+                    bad("a timer tick failed back part(s) %s of a payment for which PaymentClaimable had been generated (%d tick(s) after it)"
+                        % (lost, sum(1 for l in lines[ann["idx"] + 1:idx + 1] if l == "tick")))
+                elif t[0] in ("block", "deadline"):
+                    for k in lost:
+                        if r["height"] < parts[k]["cltv"] - hfb:
+                            bad("part %d of a claimable payment was failed back at height %d, below its own deadline %d" % (k, r["height"], parts[k]["cltv"] - hfb))
+                    if r["height"] < ann["deadline"]:
+                        bad("a part of a claimable payment was failed back by a block below the advertised deadline")
+                else:
+                    bad("part(s) %s of a claimable payment were failed back by '%s'" % (lost, t[0]))
+                ann["intact"] = False
         held = {k: p for k, p in parts.items() if p["state"] == "held"}
-        for (amount, deadline) in r["claimable"]:
+        for (amount, deadline, skimmed) in r["claimable"]:
             if any(not p["good"] for p in held.values()):
-                bad("PaymentClaimable for a set containing an unauthenticated part")
+                bad("PaymentClaimable for a set containing a part that fails the per-part checks")
             if not held:
                 bad("PaymentClaimable without any held part")
                 continue
             if sum(p["amt"] for p in held.values()) != amount:
-                bad("PaymentClaimable amount is not the sum of the held parts")
+                bad("PaymentClaimable amount is not the sum of the amounts received on the held parts")
+            if sum(p["skim"] for p in held.values()) != skimmed:
+                bad("PaymentClaimable counterparty_skimmed_fee_msat is not the sum of the parts' skimmed fees")
             tot = max(p["total"] for p in held.values())
-            if sum(p["amt"] for p in held.values()) < tot:
-                bad("PaymentClaimable although the parts do not reach the committed total")
-            if mn is not None and amount < mn:
-                bad("PaymentClaimable below the amount the payment was registered with")
+            if sum(p["intended"] for p in held.values()) < tot:
+                bad("PaymentClaimable although the sender-intended amounts of the parts do not reach the committed total")
+            if sum(p["amt"] + p["skim"] for p in held.values()) < tot and underpay:
+                bad("PaymentClaimable although received + declared skimmed fees stay below the committed total")
+            if mn is not None and tot < mn:
+                bad("PaymentClaimable for a total below the amount the payment was registered with")
             if deadline != min(p["cltv"] for p in held.values()) - hfb:
                 bad("advertised claim_deadline is not (least expiry - HTLC_FAIL_BACK_BUFFER)")
             if deadline <= r["height"] + 1:
                 bad("PaymentClaimable without a claim window")
-            last_claimable = {"amount": amount, "deadline": deadline, "parts": sorted(held), "idx": idx}
-        if t[0] == "part" and held and not r["claimable"] and not (last_claimable and last_claimable.get("live", True)):
+            ann = {"amount": amount, "deadline": deadline, "parts": sorted(held), "idx": idx, "intact": True, "live": True}
+        if t[0] == "part" and held and not r["claimable"] and not (ann and ann["live"] and ann["intact"]):
             tot = max(p["total"] for p in held.values())
-            if all(p["good"] for p in held.values()) and sum(p["amt"] for p in held.values()) >= tot and len({p["total"] for p in held.values()}) == 1:
+            if all(p["good"] for p in held.values()) and sum(p["intended"] for p in held.values()) >= tot and len({p["total"] for p in held.values()}) == 1 \
+                    and any(k not in (ann["parts"] if ann else []) for k in held):
                 bad("the held parts reach the committed total but no PaymentClaimable was generated")
         if t[0] in ("claim", "claimknown"):
-            ful = {pid_of(c, h) for (c, h) in r["fulfills"]}
-            # all-or-nothing
-            before = {k for k, p in parts.items() if p["state"] in ("held",)} | ful
+            before = {k for k, p in parts.items() if p["state"] == "held"} | ful
+            # claim_funds on a set for which no PaymentClaimable was generated is API misuse (design/C04.md): the
+            # held parts are forgotten by the library; the scripts avoid it, where it happens anyway (a set that
+            # timed out and was started again) only the unconditional rules are applied
+            misuse = not (ann and ann["live"] and before <= set(ann["parts"]))
+            if misuse:
+                for k in before:
+                    if parts[k]["state"] == "held":
+                        parts[k]["state"] = "forgotten (claim_funds without PaymentClaimable)"
             if ful and r["claimed"] and ful != set(before):
                 bad("claim_funds released the preimage on some but not all parts")
             if ful and not r["claimed"]:
                 bad("preimage released without PaymentClaimed")
-            if last_claimable and r["height"] < last_claimable["deadline"] and last_claimable.get("live", True):
-                want = set(last_claimable["parts"])
-                if not r["claimed"] or r["claimed"][0][0] != last_claimable["amount"] or ful != want:
-                    bad("claim_funds below the advertised deadline did not claim exactly the advertised parts / amount")
-            # never dropped: every part held before the claim is now fulfilled or failed
+            if r["claimed"] and not ful:
+                bad("PaymentClaimed without any preimage released")
+            for (camt, chtlcs) in r["claimed"]:
+                if camt != sum(parts[k]["amt"] for k in ful):
+                    bad("PaymentClaimed amount %d is not the sum of the amounts of the fulfilled parts (%d)" % (camt, sum(parts[k]["amt"] for k in ful)))
+                if ann is None:
+                    bad("PaymentClaimed without a preceding PaymentClaimable")
+                elif camt != ann["amount"]:
+                    bad("PaymentClaimed amount %d differs from the PaymentClaimable amount %d" % (camt, ann["amount"]))
+                elif ful != set(ann["parts"]):
+                    bad("PaymentClaimed for parts %s, PaymentClaimable had announced %s" % (sorted(ful), ann["parts"]))
+            if ann and ann["live"]:
+                if ann["intact"]:
+                    if r["height"] < ann["deadline"]:
+                        if not r["claimed"] or r["claimed"][0][0] != ann["amount"] or ful != set(ann["parts"]):
+                            bad("claim_funds below the advertised deadline did not claim exactly the advertised parts / amount")
+                else:
+                    # "if any part can no longer be claimed, none is"
+                    if ful or r["claimed"]:
+                        bad("claim_funds after part(s) of the announced set had been failed back still released the preimage on %s (PaymentClaimed %s, announced amount %d)"
+                            % (sorted(ful), [c[0] for c in r["claimed"]], ann["amount"]))
+                    still = [k for k in ann["parts"] if parts[k]["state"] == "held"]
+                    if still:
+                        bad("claim_funds dropped a part: neither claimed nor failed back (it stays pending until the upstream peer force-closes)")
             for k in before:
-                if parts[k]["state"] == "held" and last_claimable is not None:
+                if parts[k]["state"] == "held" and ann is not None and not misuse:
                     bad("claim_funds dropped a part: neither claimed nor failed back (it stays pending until the upstream peer force-closes)")
                     break
-        if t[0] in ("failback", "claim", "claimknown") and last_claimable:
-            last_claimable["live"] = False
-        if last_claimable and any(parts[k]["state"] != "held" for k in last_claimable["parts"]) and t[0] not in ("claim", "claimknown"):
-            if r["height"] < last_claimable["deadline"] and t[0] in ("block", "tick") and last_claimable.get("live", True):
-                bad("a part of a claimable payment was failed back by a %s below the advertised deadline" % ("block" if t[0] == "block" else "timer tick"))
-            last_claimable["live"] = False
+        if t[0] in ("failback", "claim", "claimknown") and ann:
+            ann["live"] = False
     # at the end of the script (ticks and blocks past every expiry buffer) nothing may be held
     for k, p in parts.items():
         if p["state"] == "held":
@@ -461,14 +612,17 @@ def mpp_judge(lines, recs, info, hfb):
 def mpp_tier(ctx, model_ok):
     rng = ctx.rng.fork("mpp")
     hfb = const_from_gen("HTLC_FAIL_BACK_BUFFER", 39)
-    n = 40 if ctx.tier == "quick" else 600
-    scen = []
-    kinds = ["late", "claim", "timeout", "short", "badsecret", "undertotal", "blocks", "failback", "over"]
+    n = 160 if ctx.tier == "quick" else 3000
+    from concurrent.futures import ThreadPoolExecutor
+    jobs = []
+    kinds = MODES * 3
     for i in range(n):
         kind = kinds[i] if i < len(kinds) else "random"
         lines, info = gen_script(rng.fork("s%d" % i), kind)
-        recs = run_mpp(ctx, lines, i)
-        scen.append((lines, info, recs))
+        jobs.append((lines, info, i))
+    with ThreadPoolExecutor(max_workers=core.NPROC) as ex:
+        allrecs = list(ex.map(lambda j: run_mpp(ctx, j[0], j[2], j[1]["underpay"]), jobs))
+    scen = [(lines, info, recs) for (lines, info, _), recs in zip(jobs, allrecs)]
     dis, fails = [], []
     hist = {}
     nsteps = 0
@@ -483,7 +637,7 @@ def mpp_tier(ctx, model_ok):
         jf = mpp_judge(lines, recs, info, hfb)
         if jf:
             fails.append({"script": lines, "info": info, "failures": jf[:3], "why": jf[0]["why"]})
-        ops, h0 = mpp_model_ops(lines, recs, hfb)
+        ops, h0 = mpp_model_ops(lines, recs, hfb, info.get("underpay", 0))
         flat = [o for cur in ops for o in cur]
         exprs.append("run_show (init %d) [%s]" % (h0, "; ".join(flat)))
         keep.append((lines, info, recs, ops))
@@ -491,7 +645,7 @@ def mpp_tier(ctx, model_ok):
     ctx.coverage["mpp_commands"] = nsteps
     ctx.coverage["mpp_mode_histogram"] = hist
     if model_ok and exprs:
-        vals = ctx.coq_eval("corr_mpp_%d" % os.getpid(), ["LdkV.Prim.U64", "LdkV.Gen.Consts", "LdkV.Model.Inbound"], exprs, shards=min(16, len(exprs)), timeout=900)
+        vals = ctx.coq_eval("corr_mpp_%d" % os.getpid(), ["LdkV.Prim.U64", "LdkV.Gen.Consts", "LdkV.Gen.InboundChecks", "LdkV.Model.Inbound"], exprs, shards=min(16, len(exprs)), timeout=900)
         for (lines, info, recs, ops), v in zip(keep, vals):
             model = json.loads(v.replace(";", ","))
             mi = 0
@@ -502,6 +656,7 @@ def mpp_tier(ctx, model_ok):
                     mi += 1
                     outs += step[:step.index([-3])]
                 m_claimable = sorted([o[2], o[3]] for o in outs if o[0] == 1)
+                r = dict(r, claimable=[c[:2] for c in r["claimable"]])
                 m_claimed = sorted(o[2] for o in outs if o[0] == 2)
                 m_ful = sorted(o[1] for o in outs if o[0] == 3)
                 m_fail = sorted(o[1] for o in outs if o[0] == 4)
@@ -533,19 +688,21 @@ def run(ctx):
         ctx.obligations.append(("rs2v-generation", False, gen_err))
     okm, proved = False, False
     if gen_err is None:
-        okm, outm = ctx.coq_make(["Model/InboundSecretExec.vo", "Model/Inbound.vo"])
+        okm, outm = ctx.coq_make(["Gen/InboundChecks.vo", "Model/InboundSecretExec.vo", "Model/Inbound.vo"])
         if not okm:
             ctx.log(outm[-2000:])
         proved = ctx.prove("C04")
     ctx.trusted_base += [
         "Coq 8.16.1 kernel + vm_compute (no native_compute)",
         "tools/rs2v/consts_lite (MAX_VALUE_MSAT; HTLC_FAIL_BACK_BUFFER and MPP_TIMEOUT_TICKS come from C08's Gen/Consts.v), regenerated from the source every run",
+        "tools/rs2v anchored expressions (Gen/InboundChecks.v: final_hop_underpaid, mpp_already_complete, mpp_complete_on_arrival, mpp_complete_at_tick, claim_amount_mismatch; one rewrite: new_htlc.mpp_part().sender_intended_value -> a parameter) and five textual source anchors for the loops rs2v cannot translate",
         "coq/Crypto (Gallina SHA-256, HMAC, ChaCha20, HKDF): validated against RFC vectors there and byte-for-byte against the Rust create/verify here",
         "Model/InboundSecret.v, Model/Inbound.v: hand transliterations tied by correspondence (h_inbound; hooks ln::inbound_payment::verif_hooks_inbound)",
         "cryptographic assumption: HMAC-SHA256 is unforgeable (verify_sound reduces acceptance to a MAC equality); ChaCha20 as a keystream",
         "harness crate /verif/harness (h_inbound) and LDK functional_test_utils",
     ]
-    ctx.assumptions += ["HMAC unforgeability", "monitor updates complete synchronously in the trace tier (pending_claiming_payments window not exercised)"]
+    ctx.assumptions += ["HMAC unforgeability", "monitor updates complete synchronously in the trace tier (pending_claiming_payments window not exercised)",
+                        "claim_funds is only called for a set covered by a PaymentClaimable (anything else is API misuse, see design/C04.md); the previous hop declares the fee it skimmed truthfully (forward_intercepted_htlc)"]
     sdis, sfails = secret_tier(ctx, okm)
     mdis, mfails = mpp_tier(ctx, okm)
     ctx.coverage["evaluations"] = ctx.coverage.get("secret_cases", 0) + ctx.coverage.get("mpp_commands", 0)
@@ -559,6 +716,7 @@ def run(ctx):
         ctx.violation("C04 violated by the implementation (payment secrets): " + f["why"],
                       {"broken": "implementation judge (h_inbound secret)", "failing_input": f,
                        "replay_cmd": "printf 'key <hex>\\n%s\\n' | %s secret" % (f.get("cmd", ""), ctx.bin_path("h_inbound"))}, True)
+    mfails.sort(key=lambda f: len(f.get("script") or []))
     for f in mfails[:2]:
         ctx.violation("C04 violated by the implementation (receiving MPP): " + f["why"],
                       {"broken": "implementation judge (h_inbound mpp)", "script": f.get("script"), "failure": f,
@@ -583,7 +741,7 @@ def replay(ctx, rep):
     print(json.dumps(rep, indent=1)[:8000])
     if rep.get("script"):
         ctx.build_harness(BINS)
-        recs = run_mpp(ctx, rep["script"], 0)
+        recs = run_mpp(ctx, rep["script"], 0, (rep.get("failure", {}).get("info") or {}).get("underpay", 0))
         for l, r in zip(rep["script"], recs):
             print(l, "->", json.dumps(r))
         return 1
